@@ -103,7 +103,8 @@ impl DiskCacheEntry {
             file_path,
             size_bytes,
             created_at: now,
-            expires_at: ttl.map(|t| now + t),
+            // A TTL that ends beyond what the clock can represent never ends
+            expires_at: ttl.and_then(|t| now.checked_add(t)),
             last_accessed: now,
             access_count: 1,
         }
